@@ -715,7 +715,7 @@ func (t *nafTab) explore(st nafState, assign map[int]int8, depth int) {
 	if n, ok := f.ConstInt(); !ok || n.Sign() != 0 {
 		lhs := "carry + sum_{j<d} b_{pos+j}*2^j"
 		if !ok {
-			v := t.w.vars[f.ts[0].v]
+			v := t.w.Var(f.ts[0].v)
 			t.bad(&t.vmsgs, st, assign, "digit %d, carry' %d, pos' %d do not depend on %s, which is consumed: %s == digit + carry'*2^%d fails", digit, nc, np, v.Name, lhs, d)
 		} else {
 			t.bad(&t.vmsgs, st, assign, "digit %d, carry' %d, pos' %d: %s - digit - carry'*2^%d = %s, want 0 (the value is not preserved)", digit, nc, np, lhs, d, n)
